@@ -237,6 +237,29 @@ static void exec(Pool &P, const json &c, json &ev) {
       P.put<Grid<T>>(c, *g);
     } else if (op == "Destroy") {
       P.s[c.at("dst").get<size_t>() - 1] = std::make_unique<Obj>();
+    } else if (op == "LinComb") {
+      const std::vector<T> cs = decVec<T>(c.at("cs"));
+      const size_t first = c.at("srcs").at(0).get<size_t>();
+      onSpline(*P.s[first - 1], [&](auto &s0) {
+        using X = std::decay_t<decltype(s0)>;
+        std::vector<X> ss;
+        for (const auto &js : c.at("srcs")) ss.push_back(std::get<X>(*P.s[js.get<size_t>() - 1]));  // same order by construction
+        P.put<X>(c, bspline::linearCombination(cs, ss));
+      });
+    } else if (op == "BF") {
+      const std::string w = c.at("which").get<std::string>();
+      onSplines(P.at(c, "a"), P.at(c, "b"), [&](auto &a, auto &b) {
+        constexpr size_t oa = std::decay_t<decltype(a)>::spline_order, ob = std::decay_t<decltype(b)>::spline_order;
+        if constexpr (oa <= 3 && ob <= 3) {
+          using namespace bspline::operators;
+          using namespace bspline::integration;
+          const auto &ca = a;
+          const auto &cb = b;
+          if (w == "sp") ev["val"] = Codec<T>::enc(ScalarProduct{}(ca, cb));
+          else if (w == "dx") ev["val"] = Codec<T>::enc(BilinearForm{Dx<1>{}, Dx<1>{}}(ca, cb));
+          else ev["val"] = Codec<T>::enc(BilinearForm{X<1>{}, Dx<1>{}}(ca, cb));
+        } else throw std::runtime_error("harness: BF orders");
+      });
     } else if (op == "Eval") {
       onSpline(P.at(c, "src"), [&](auto &s) {
         const auto &cs = s;
